@@ -2,7 +2,7 @@
    closing and of withdrawing a position) establishes. *)
 From Coq Require Import ZArith List String Lia Bool.
 From MD.Model Require Import Base Ownable Epoch PoolMath Types PoolManager FarmManager Chain.
-From MD.Proofs Require Import Tactics Arith PoolMathProofs MapLemmas BankProofs WeightProofs FarmProofs FarmCustody ClaimFrame ClaimSplit.
+From MD.Proofs Require Import Tactics Arith PoolMathProofs MapLemmas BankProofs WeightProofs FarmProofs RewardProofs FarmCustody ClaimFrame ClaimSplit.
 Import ListNotations.
 Open Scope Z_scope.
 
@@ -96,4 +96,21 @@ Proof.
   pose proof (reconcile_tables _ _ _ _ _ Hs3) as (_ & _ & U3 & _).
   unfold no_open_in, positions_by_receiver in Hno. rewrite U3 in Hno.
   destruct (reconcile_clears_weights _ _ _ _ _ Hs3 Hno) as (_ & _ & A). exact A.
+Qed.
+
+(* C06: nobody is paid for an epoch before his first weight entry for the LP denom (position changes are recorded for the
+   epoch after the operation: WeightProofs / C10) — every reward entry for such an epoch is zero *)
+Theorem no_reward_before_first_entry s f lp recv until lc rs e0 x0 :
+  farm_rewards s f lp recv until lc = Ok rs ->
+  w_earliest (fm_weights s) recv lp = Some (e0, x0) ->
+  forall e r, In (e, r) rs -> e < e0 -> r = 0.
+Proof.
+  intros H He e r Hin Hlt.
+  destruct (farm_rewards_entries _ _ _ _ _ _ _ H) as (start & _ & _ & Hent).
+  destruct (Hent e r Hin) as (_ & _ & _ & _ & total & _ & Hne & Hr & _).
+  assert (Hz : address_weight_at (fm_weights s) recv lp start e = 0).
+  { rewrite address_weight_cf. apply cf_none. intros x Hx. apply in_epoch_range in Hx.
+    destruct (w_get (fm_weights s) (mkw recv lp x)) as [v|] eqn:G; [|reflexivity].
+    destruct (w_earliest_spec _ _ _ _ _ He) as [_ Hmin]. specialize (Hmin _ _ G). lia. }
+  rewrite Hz, Z.mul_0_r, Z.div_0_l in Hr by exact Hne. exact Hr.
 Qed.
